@@ -25,6 +25,7 @@ import (
 	"strconv"
 	"strings"
 	"sync"
+	"sync/atomic"
 	"time"
 )
 
@@ -116,6 +117,7 @@ type run struct {
 	rnd    *rand.Rand
 	rnd2   *randv2.Rand
 	crypto uint64
+	raceOn int32 // != 0: map accesses are tracked (race.go)
 
 	ev      uint64
 	mapEvts int
@@ -178,6 +180,9 @@ func (r *run) finish(status string, code int) bool {
 	}
 	return true
 }
+
+// Goexit unwinds the calling goroutine (runtime.Goexit, named here for race.go).
+func Goexit() { runtime.Goexit() }
 
 // Exit replaces os.Exit: the exit becomes an event, the calling goroutine unwinds.
 func Exit(code int) {
@@ -920,6 +925,9 @@ func Keys[M ~map[K]V, K comparable, V any](site int, m M) []K {
 	n := len(m)
 	if n == 0 {
 		return nil
+	}
+	if r := cur; r != nil && atomic.LoadInt32(&r.raceOn) != 0 {
+		r.mapAccess(mapID(m), false)
 	}
 	keys := make([]K, 0, n)
 	for k := range m {
